@@ -239,6 +239,15 @@ def check_contract_premises(prog: Program, res: Result) -> None:
                 parts = [(x, True) for x in t.values]
             else:
                 parts = [(t, taken)]
+            # (h, w) == (max_h, max_w) compares side by side
+            split = []
+            for x, tk in parts:
+                if isinstance(x, ast.Compare) and len(x.ops) == 1 and isinstance(x.ops[0], (ast.Eq, ast.NotEq)) and isinstance(x.left, (ast.Tuple, ast.List)) \
+                        and isinstance(x.comparators[0], (ast.Tuple, ast.List)) and len(x.left.elts) == len(x.comparators[0].elts) and (isinstance(x.ops[0], ast.Eq) == tk):
+                    split += [(ast.Compare(left=a_, ops=[ast.Eq()], comparators=[b_]), True) for a_, b_ in zip(x.left.elts, x.comparators[0].elts)]
+                else:
+                    split.append((x, tk))
+            parts = split
             for x, tk in parts:
                 if isinstance(x, ast.Compare) and len(x.ops) == 1 and isinstance(x.ops[0], (ast.Eq, ast.NotEq)) and (isinstance(x.ops[0], ast.Eq) == tk):
                     sides = {norm(x.left), norm(x.comparators[0])}
